@@ -174,6 +174,30 @@ theorem success (limit reqLen : Nat) (otcp oudp : List Nat) (tcp udp : Nat → B
           · have := hdt k hk; rw [ha] at this; rcases this with e | e | e <;> simp at e
           · have := hd k hk; rw [ha] at this; rcases this with e | e | e <;> simp at e
 
+/-- A realm whose KDCs are published (DNS SRV) for UDP only: TCP has no servers at all. Whatever the size
+    preference tries first, the exchange returns the answer of an answering UDP endpoint (unless
+    udp_preference_limit = 1 forbids UDP). -/
+theorem success_udp_only (limit reqLen : Nat) (oudp : List Nat) (tcp udp : Nat → Beh)
+    (hl : limit ≠ 1)
+    (hwu : ∀ k ∈ oudp, udp k = .answer ∨ Down (udp k))
+    (hex : ∃ k ∈ oudp, udp k = .answer) :
+    ∃ k, (sendToKDC limit reqLen [] oudp tcp udp).res = .ok k false ∧ udp k = .answer ∧ k ∈ oudp := by
+  obtain ⟨k, t, hr, ht⟩ := success limit reqLen [] oudp tcp udp (by simp) hwu (Or.inr ⟨hl, hex⟩)
+  cases t with
+  | true => simp at ht
+  | false => exact ⟨k, hr, by simpa using ht⟩
+
+/-- … and one whose KDCs are published for TCP only: the answer of an answering TCP endpoint is returned
+    also when the request is small and UDP is tried first. -/
+theorem success_tcp_only (limit reqLen : Nat) (otcp : List Nat) (tcp udp : Nat → Beh)
+    (hwt : ∀ k ∈ otcp, tcp k = .answer ∨ Down (tcp k))
+    (hex : ∃ k ∈ otcp, tcp k = .answer) :
+    ∃ k, (sendToKDC limit reqLen otcp [] tcp udp).res = .ok k true ∧ tcp k = .answer ∧ k ∈ otcp := by
+  obtain ⟨k, t, hr, ht⟩ := success limit reqLen otcp [] tcp udp hwt (by simp) (Or.inl hex)
+  cases t with
+  | false => simp at ht
+  | true => exact ⟨k, hr, by simpa using ht⟩
+
 /-- **C12 all_down.** -/
 theorem all_down (limit reqLen : Nat) (otcp oudp : List Nat) (tcp udp : Nat → Beh)
     (ht : ∀ k ∈ otcp, Down (tcp k)) (hu : ∀ k ∈ oudp, Down (udp k)) :
